@@ -474,6 +474,9 @@ def run(ctx):
     _stage_rpc(ctx)
     ev = next(e for e in done if e["op"] == "rt" and e["f"] == "hex" and e["g"] == "bin" and len(e["b"]) == 3)
     ctx.sample({"stage": "C", "event": {k: ev[k] for k in ("op", "f", "g", "b", "t1", "t2", "t3", "b2")}})
+    # extension beyond the listed property (never a VIOLATION): what each subcommand computes, spec/CliCmd.tla
+    from . import ext_clicmd
+    ext_clicmd.stage(ctx)
 
 
 def replay(ctx, path):
